@@ -56,6 +56,7 @@ type Event struct {
 	Ev       string   `json:"ev"` // Call | Compile
 	Row      Row      `json:"row"`
 	Mount    string   `json:"mount"`
+	Boot     string   `json:"boot"` // direct | reload
 	Variant  string   `json:"variant"`
 	Kind     string   `json:"kind"` // strict | norm | method
 	Conc     int      `json:"conc"`
@@ -86,6 +87,7 @@ type options struct {
 	mounts   string // all | rotate | bare | prefix | shared
 	variants string // all | rotate
 	concs    string // all | rotate
+	reload   string // none | rotate | all : reach the configuration through a hot reload from a different one
 	adminN   int    // number of configurations whose admin rows are executed (0 = all)
 }
 
@@ -106,11 +108,12 @@ func main() {
 	mounts := flag.String("mounts", "rotate", "all | rotate | bare | prefix | shared")
 	concs := flag.String("concs", "all", "all | rotate (one concretisation per row and call, rotating)")
 	variants := flag.String("variants", "rotate", "all | rotate")
+	reload := flag.String("reload", "none", "none | rotate | all")
 	adminN := flag.Int("admin-cfgs", 0, "configurations whose admin rows are run (0 = all)")
 	workers := flag.Int("workers", 8, "parallel instances")
 	one := flag.String("one", "", "replay: JSON of one event (row, mount, variant, conc, adminep)")
 	flag.Parse()
-	opt := options{seed: *seed, scratch: *scratch, mounts: *mounts, variants: *variants, concs: *concs, adminN: *adminN}
+	opt := options{seed: *seed, scratch: *scratch, mounts: *mounts, variants: *variants, concs: *concs, reload: *reload, adminN: *adminN}
 
 	if *one != "" {
 		var e Event
@@ -181,9 +184,10 @@ func main() {
 	}
 
 	type group struct {
-		id    string
-		mount string
-		rows  []Row
+		id     string
+		mount  string
+		rows   []Row
+		reload bool
 	}
 	var groups []group
 	for gi, id := range ids {
@@ -205,11 +209,12 @@ func main() {
 				pr = append(pr, r)
 			}
 			// admin rows run on their own instance (better balance, and pull seeding stays undisturbed)
+			rl := opt.reload == "all" || (opt.reload == "rotate" && (gi+int(opt.seed))%2 == 0)
 			if len(ar) > 0 {
-				groups = append(groups, group{id, m, ar})
+				groups = append(groups, group{id, m, ar, rl})
 			}
 			if len(pr) > 0 {
-				groups = append(groups, group{id, m, pr})
+				groups = append(groups, group{id, m, pr, rl})
 			}
 		}
 	}
@@ -241,7 +246,7 @@ func main() {
 			for gi := range ch {
 				g := groups[gi]
 				local := map[string]int{}
-				n, sk, err := runGroup(opt, cfgOf[g.id], g.mount, g.rows, func(e Event) {
+				n, sk, err := runGroup(opt, cfgOf[g.id], g.mount, g.reload, g.rows, func(e Event) {
 					sh.Write(gi, e)
 					countEvent(local, e)
 				})
@@ -281,6 +286,7 @@ func countEvent(m map[string]int, e Event) {
 		m["pullcls."+r.Tr+"."+r.Op+"."+cls]++
 		m["variant."+r.Tr+"."+e.Variant+"."+cls]++
 		m["mount."+e.Mount]++
+		m["boot."+e.Boot+"."+cls]++
 		if e.Pre != e.Post {
 			m["pull.changed."+r.Tr+"."+r.Op]++
 		}
@@ -322,8 +328,8 @@ func fatal(f string, a ...any) {
 }
 
 // runGroup boots one instance for (cfg, mount) and executes its rows.
-func runGroup(opt options, c Cfg, mount string, rows []Row, emit func(Event)) (int, int, error) {
-	in, err := boot(opt, c, mount)
+func runGroup(opt options, c Cfg, mount string, viaReload bool, rows []Row, emit func(Event)) (int, int, error) {
+	in, err := boot(opt, c, mount, viaReload)
 	if err != nil {
 		return 0, 0, err
 	}
@@ -339,7 +345,7 @@ func runGroup(opt options, c Cfg, mount string, rows []Row, emit func(Event)) (i
 			if in.storeSize() > 80 {
 				// keep dumps small: restart on a fresh store (same configuration, same tokens)
 				in.stop()
-				in, err = boot(opt, c, mount)
+				in, err = boot(opt, c, mount, viaReload)
 				if err != nil {
 					return n, sk, err
 				}
@@ -358,7 +364,7 @@ func replayOne(opt options, e Event) {
 		fmt.Println(string(b))
 		return
 	}
-	in, err := boot(opt, e.Row.Cfg, e.Mount)
+	in, err := boot(opt, e.Row.Cfg, e.Mount, e.Boot == "reload")
 	if err != nil {
 		fatal("boot: %v", err)
 	}
